@@ -72,6 +72,20 @@ def sseInit : SseSt := { line := [], prevCR := false, dataLines := [], out := []
 /-- the events a client has dispatched after reading `s` (an incomplete event is not dispatched) -/
 def parseSSE (s : Bytes) : List Bytes := (s.foldl sseByte sseInit).out
 
+/-! ### nothing but records: what is left over after the last complete record -/
+
+/-- bytes after the last line feed (an unterminated tail is not a record — and must not be there) -/
+def lineRestAux : Bytes → Bytes → Bytes
+  | [], cur => cur
+  | b :: rest, cur => if b = LF then lineRestAux rest [] else lineRestAux rest (cur ++ [b])
+
+def lineRest (s : Bytes) : Bytes := lineRestAux s []
+
+/-- the event-stream reader is between events at the end of `s`: no partial line, no undispatched data -/
+def sseClean (s : Bytes) : Bool :=
+  let st := s.foldl sseByte sseInit
+  st.line = [] && st.dataLines = []
+
 /-! ### what the property demands of one observed call (used by the driver) -/
 
 /-- the payload assumptions under which records can be split at all -/
